@@ -1,6 +1,124 @@
-From Coq Require Import List ZArith QArith Bool.
+(* C53 Fermion-to-qubit mappings are faithful representations.
+   Statements only; every proof is `exact <lemma>` from Disc/FermiProofs.v.
+   `sequiv A B` = equal coefficient functions (forall Pauli words w, coef A w == coef B w over Q(i)).
+   Ladder operators are (orbital, creation?) pairs; op_image m n l is the image of one ladder operator under
+   mapping m in {JW, PT, BK} on an n-qubit register (None = the ValueError for an orbital outside the register). *)
+From Coq Require Import List ZArith QArith Bool Arith.
 From PLV Require Import Disc.FermiModel Disc.FermiProofs.
 Import ListNotations.
-Theorem empty_word_is_identity : forall m n, fw_image m n [] = Some (ident n).
-Proof. exact fw_image_nil. Qed.
-Print Assumptions empty_word_is_identity.
+Local Open Scope nat_scope.
+
+(* ---- Jordan-Wigner, every register size and every pair of modes ---- *)
+
+(* CAR: {a_p^s, a_q^t} = delta_pq * [s <> t] * 1, i.e. {a_p, a_q^+} = delta_pq, {a_p, a_q} = {a_p^+, a_q^+} = 0 *)
+Theorem jw_car : forall n p q s t, p < n -> q < n ->
+  sequiv (anticomm (jw_op n (p, s)) (jw_op n (q, t))) (delta_ident n (Nat.eqb p q && xorb s t)).
+Proof. exact jw_car_all. Qed.
+Print Assumptions jw_car.
+
+(* the key step: Jordan-Wigner strings of different modes overlap on one non-commuting site (odd phase) ... *)
+Theorem jw_strings_anticommute : forall p n q P R, p < q -> q < n -> (P = PX \/ P = PY) ->
+  let k := fst (wmul (jw_word n p P) (jw_word n q R)) in k = 1%Z \/ k = 3%Z.
+Proof. exact jw_words_phase_odd. Qed.
+Print Assumptions jw_strings_anticommute.
+
+(* ... and, for ALL Pauli words, (AB)^dagger = B^dagger A^dagger: swapping the factors conjugates the phase *)
+Theorem pauli_word_product_adjoint : forall a b,
+  snd (wmul b a) = snd (wmul a b) /\ fst (wmul b a) = ((- fst (wmul a b)) mod 4)%Z.
+Proof. exact wmul_swap. Qed.
+Print Assumptions pauli_word_product_adjoint.
+
+(* ---- all three mappings, every register size ---- *)
+
+(* sums to sums (FermiSentence addition = merging the term lists) *)
+Theorem map_is_linear_add : forall m n S1 S2 A1 A2,
+  fs_image m n S1 = Some A1 -> fs_image m n S2 = Some A2 ->
+  exists A, fs_image m n (S1 ++ S2) = Some A /\ forall v, ceq (coef A v) (cplus (coef A1 v) (coef A2 v)).
+Proof. exact fs_image_add. Qed.
+Print Assumptions map_is_linear_add.
+
+(* scalars to scalars *)
+Theorem map_is_linear_scale : forall m n c S A, fs_image m n S = Some A ->
+  exists A', fs_image m n (fsscale c S) = Some A' /\ forall v, ceq (coef A' v) (cmulx (coef A v) c).
+Proof. exact fs_image_scale. Qed.
+Print Assumptions map_is_linear_scale.
+
+(* products: the image of a word is the ordered product of the images of its ladder operators, and the image of
+   u*v is the image of u multiplied from the right by the ladder images of v *)
+Theorem map_product_is_product_of_images : forall m n w imgs,
+  sequence (map (op_image m n) w) = Some imgs -> fw_image m n w = Some (fold_left smul imgs (ident n)).
+Proof. exact fw_image_fold. Qed.
+Print Assumptions map_product_is_product_of_images.
+
+Theorem map_of_concatenation : forall m n u v,
+  fw_image m n (fmul u v) =
+  match fw_image m n u, sequence (map (op_image m n) v) with
+  | Some A, Some imgs => Some (fold_left smul imgs A)
+  | _, _ => None
+  end.
+Proof. exact fw_image_app. Qed.
+Print Assumptions map_of_concatenation.
+
+(* adjoint on generators: image of a_p^+ is the adjoint of the image of a_p (all mappings, all n, all p) *)
+Theorem adjoint_preserved_generators : forall m n p s,
+  op_image m n (p, negb s) = omap sadj (op_image m n (p, s)).
+Proof. exact op_image_adj. Qed.
+Print Assumptions adjoint_preserved_generators.
+
+(* ---- bounded clauses (finite ranges decided by vm_compute; the bound is part of the statement) ---- *)
+
+(* CAR for Jordan-Wigner, parity and Bravyi-Kitaev on every register of at most 6 qubits.
+   _partial: parity / Bravyi-Kitaev for n > 6 are not proved. *)
+Theorem car_all_mappings_partial : forall m n l1 l2, n <= 6 -> fst l1 < n -> fst l2 < n ->
+  exists A B, op_image m n l1 = Some A /\ op_image m n l2 = Some B /\
+              sequiv (anticomm A B) (delta_ident n (Nat.eqb (fst l1) (fst l2) && xorb (snd l1) (snd l2))).
+Proof. exact car_bounded. Qed.
+Print Assumptions car_all_mappings_partial.
+
+(* adjoint of whole words.  _partial: only n <= 5 and words of at most 3 ladder operators (the general statement
+   needs associativity of the sentence product, which is not formalised). *)
+Theorem adjoint_preserved_partial : forall m n w, n <= 5 -> length w <= 3 -> Forall (fun l => fst l < n) w ->
+  exists A B, fw_image m n (fadj w) = Some A /\ fw_image m n w = Some B /\ sequiv A (sadj B).
+Proof. exact adj_bounded. Qed.
+Print Assumptions adjoint_preserved_partial.
+
+(* image(u*v) = image(u) @ image(v) as sentences.  _partial: n <= 4, |u|,|v| <= 2 (same reason). *)
+Theorem product_homomorphism_partial : forall m n u v, n <= 4 -> length u <= 2 -> length v <= 2 ->
+  Forall (fun l => fst l < n) u -> Forall (fun l => fst l < n) v ->
+  exists X A B, fw_image m n (fmul u v) = Some X /\ fw_image m n u = Some A /\ fw_image m n v = Some B /\
+                sequiv X (smul A B).
+Proof. exact hom_bounded. Qed.
+Print Assumptions product_homomorphism_partial.
+
+(* unitary equivalence: an explicit CNOT network (CNOT = (1 + Z_c + X_t - Z_c X_t)/2 inside the algebra) conjugates
+   the Jordan-Wigner image of every ladder operator into its parity / Bravyi-Kitaev image, and every CNOT used is
+   unitary.  _partial: n <= 6, generators only (extension to products relies on conjugation being multiplicative). *)
+Theorem unitarily_equivalent_parity_partial : forall n l, n <= 6 -> fst l < n ->
+  exists B, pt_op n l = Some B /\ sequiv (to_parity n (jw_op n l)) B.
+Proof. exact jw_pt_equiv_bounded. Qed.
+Print Assumptions unitarily_equivalent_parity_partial.
+
+Theorem unitarily_equivalent_bk_partial : forall n l, n <= 6 -> fst l < n ->
+  exists B, bk_op n l = Some B /\ sequiv (to_bk n (jw_op n l)) B.
+Proof. exact jw_bk_equiv_bounded. Qed.
+Print Assumptions unitarily_equivalent_bk_partial.
+
+Theorem cnot_is_unitary_partial : forall n i j, n <= 6 -> i < j -> j < n ->
+  sequiv (smul (cnot n i j) (sadj (cnot n i j))) (ident n).
+Proof. exact cnot_unitary_bounded. Qed.
+Print Assumptions cnot_is_unitary_partial.
+
+(* the decision procedure behind the bounded clauses is sound for sequiv *)
+Theorem sentence_comparison_sound : forall A B, sent_eqb A B = true -> sequiv A B.
+Proof. exact sent_eqb_sound. Qed.
+Print Assumptions sentence_comparison_sound.
+
+(* non-vacuity: the docstring example a+_0 a_1 under Jordan-Wigner, and an actual CAR instance *)
+Example jw_docstring_example :
+  run_map JW 0 (FW [(0, true); (1, false)]) =
+  Some [([PY; PX], (0, - (1 # 4))%Q); ([PY; PY], (1 # 4, 0)%Q); ([PX; PX], (1 # 4, 0)%Q); ([PX; PY], (0, 1 # 4)%Q)].
+Proof. vm_compute. reflexivity. Qed.
+
+Example bk_car_instance :
+  exists A B, bk_op 6 (5, false) = Some A /\ bk_op 6 (5, true) = Some B /\ anticomm A B = ident 6.
+Proof. eexists; eexists; repeat split; vm_compute; reflexivity. Qed.
